@@ -25,13 +25,62 @@ def harness(name, props, kind, what, tier='quick', bound='none', args=(), timeou
     HARNESSES.append(dict(name=name, props=props, kind=kind, what=what, tier=tier, bound=bound, args=list(args), timeout=timeout, heavy=heavy))
 
 
-_BUILT = ['C01', 'C02', 'C03', 'C04', 'C05', 'C06', 'C07', 'C08', 'C09', 'C10', 'C11', 'C12', 'C13', 'C14', 'C15', 'C16', 'C17']
-for _p in ['C01', 'C02', 'C03', 'C04', 'C05', 'C06', 'C07', 'C08', 'C09', 'C10', 'C11', 'C12', 'C13', 'C14', 'C15', 'C16', 'C17']:
-    if _p in _BUILT:
-        prop(_p, level='proof', level_text='Verus discharges the contracts of the real functions serving this property for all inputs (under construction: unit list grows)',
-             level_note='trusted: Verus/Z3, vx primitives standing for unsafe idioms, weaver rewrite table')
-    else:
-        prop(_p, level='proof', not_applicable='check under construction in this session (see DESIGN.md section 3 for the plan)')
+_NOTE_V = 'trusted: Verus 0.2026.09.13 / Z3, the vx primitives that stand for the unsafe idioms (their requires = std safety contracts, value specs cross-checked by Kani), the weaver rewrite table, std/arrayvec internals; 64-bit little-endian target'
+_NOTE_K = 'trusted: Kani 0.68 / CBMC 6.11 (bit-precise on the compiled crate, unwinding assertions on), the hand-written RFC oracles inside the harnesses; bounded harnesses decide nothing beyond their stated bound'
+_T_V = 'Verus requires/ensures/invariants woven into the real functions (per-run annotated copy), one whole-crate deductive run'
+_T_K = 'Kani contract harnesses on the compiled real crate: assume = precondition, assert = postcondition from the property/RFC; loop-free full-domain harnesses are complete, the others bounded'
+
+prop('C01', level='proof', technique=_T_V + '; ' + _T_K,
+     level_text='Every function under contract that hands out a slice or reads through an unsafe idiom is proved by Verus, for all inputs, to stay inside its argument (result == subrange of the input view; each get_unchecked / ptr::add / from_raw_parts is replaced by a primitive whose requires is the std safety contract and is discharged at the call site; type invariants carry the length facts between constructor and accessor). Kani touch harnesses cross-check the whole-packet entry points with bounded inputs. Memory safety is a for-all property, so proof is the right level; functions without a contract are listed in the evidence as not covered.',
+     level_note=_NOTE_V + '; 135 of 375 unsafe keywords are outside functions under contract (evidence: unsafe_inventory)')
+prop('C02', level='proof', technique=_T_V + '; ' + _T_K,
+     level_text='Verus proves the absence of panics (index/slice bounds, unwrap, arithmetic overflow, division) and termination (decreases on every loop) for every decoder, iterator step and accessor under contract, for all inputs; Kani harnesses decide the TCP option / NDP option iterators and whole-packet entry points on bounded inputs with all built-in overflow and bounds checks on. Debug/Display formatting is not under contract (format machinery is outside both verifiers reach) and is stated as not covered.',
+     level_note=_NOTE_V + '; ' + _NOTE_K)
+prop('C03', level='proof', technique=_T_V + '; ' + _T_K,
+     level_text='Each slicing decoder (Ethernet II, VLAN, MACsec, Linux SLL, ARP, IPv4, IPv6 + extension chain, AH, UDP, TCP, ICMPv4/6, and the SlicedPacket cursor from_ip) has a Verus postcondition taken from the wire format: accept set, header length, payload range and every accessor as a function of the input bytes; the IPv6 extension walk is proved equal to an RFC 8200 spec function with a loop invariant. The Ethernet/SLL/ether-type doors of the cursor have partial contracts and are cross-checked by bounded Kani harnesses.',
+     level_note=_NOTE_V + '; numeric offsets obtained from pointer differences are not decided by Verus (bounded Kani harnesses c07_offsets_*)')
+prop('C04', level='model_checking', technique=_T_K + '; ' + _T_V,
+     level_text='Struct decoding vs slicing: the transport step shared by all PacketHeaders entry points (read_transport), UdpHeader/TcpHeader::from_slice and IpHeaders::from_ipv4_slice are under Verus contract (for all inputs); the whole-packet comparison PacketHeaders vs SlicedPacket is decided by bounded Kani harnesses (IPv4, inputs <= 32..40 B, thorough tier). The IPv6 struct walk (Ipv6Extensions::from_slice, IpHeaders::from_ipv6_slice, IpHeaders::from_slice) is not under contract yet: bounded model checking is the honest label.',
+     level_note=_NOTE_K + '; ' + _NOTE_V)
+prop('C05', level='proof', technique=_T_V + '; ' + _T_K,
+     level_text='The lax decoders (LaxIpv4Slice, LaxIpv6Slice, LaxIpSlice, Ipv6ExtensionsSlice::from_slice_lax, LaxMacsecSlice, UdpSlice::from_slice_lax) are proved by Verus against the same wire-format spec functions as the strict ones: where the strict spec succeeds the lax result is the same boundary with no stop error, otherwise the prefix in front of the fault and the fault as stop error; incomplete <=> the length field promised more than the slice holds, with the slice as length source. LaxSlicedPacket / LaxPacketHeaders vs their strict counterparts are decided on bounded inputs by Kani.',
+     level_note=_NOTE_V + '; ' + _NOTE_K)
+prop('C06', level='proof', technique=_T_V + '; ' + _T_K,
+     level_text='IpSlice / LaxIpSlice are proved (Verus) to return what the version-specific decoders return (both against the same spec function); every header type read from io::Read equals from_slice (Kani, complete over all byte strings of the header size for the fixed-size headers, bounded for the variable ones); the Ethernet / ether-type / IP doors are compared on bounded inputs (Kani).',
+     level_note=_NOTE_V + '; ' + _NOTE_K + '; the struct family (IpHeaders::from_slice*) is compared only on bounded inputs')
+prop('C07', level='proof', technique=_T_V + '; ' + _T_K,
+     level_text='Every length / content error of the decoders under contract is a Verus postcondition: layer, required_len, len exactly, len_source only a field that really limited the data, content errors carrying the offending value. Offsets that the whole-packet cursor derives from pointer differences cannot be expressed in Verus (slices have no addresses); they are decided by bounded Kani harnesses against an executable RFC reference (c07_offsets_*, p_*_boundary_*).',
+     level_note=_NOTE_V + '; ' + _NOTE_K)
+prop('C08', level='proof', v=False, technique=_T_K,
+     level_text='decode(encode(h)) == h and encode(decode(b)) == b as Kani contract harnesses on the real to_bytes/write/from_slice/read functions: complete (loop-free, every field value / every byte string of the header size) for the fixed-size headers and newtypes, bounded for the variable-size ones (IPv4 options, TCP options, AH ICV, IPv6 extension payloads, ARP addresses) with the bound stated per harness. No Verus contract: the encoders build arrays through ArrayVec/io::Write, which the Verus front end cannot take; CBMC is complete here because the domains are finite.',
+     level_note=_NOTE_K)
+prop('C09', level='proof', technique=_T_V + '; ' + _T_K,
+     level_text='The checksum helpers (u32/u64 accumulators, Sum16BitWords) are proved by Verus, for slices of every length, to compute the RFC 1071 one\'s complement sum (spec functions oc16 / wsum, loop invariants, end-around-carry lemmas); on top of them UDP (IPv4/IPv6, all variants), TCP (TcpHeader, TcpHeaderSlice, TcpSlice; IPv4/IPv6) and the ICMPv6 validator are proved equal to the RFC 768 / 9293 / 4443 pseudo-header checksum in big-endian form incl. the never-zero rule. IPv4 header, ICMPv4, ICMPv6 message and IGMP checksums are decided by Kani harnesses with an independent RFC oracle (bounded payloads).',
+     level_note=_NOTE_V + '; ' + _NOTE_K)
+prop('C10', level='model_checking', v=False, technique=_T_K,
+     level_text='PacketBuilder: size() == bytes written, length fields and checksums consistent, decided by Kani on the real builder with bounded payloads (<= 5 B) and the checksum helpers replaced by their proved contract (ideal accumulator). The builder writes through io::Write / ArrayVec, outside the Verus front end; bounded model checking is what is available.',
+     level_note=_NOTE_K)
+prop('C11', level='model_checking', v=False, technique=_T_K,
+     level_text='IP defragmentation: IpFragRange merge algebra complete (all u16 ranges); IpDefragBuf one- and two-step contracts from symbolic buffer states (section lists bounded), pool-level sequences bounded. The buffer uses Vec and sort, outside Verus\' reach here.',
+     level_note=_NOTE_K)
+prop('C12', level='proof', v=False, technique=_T_K,
+     level_text='Ipv6Extensions / IpHeaders next_header, set_next_headers, header_len, write vs walk: Kani harnesses over every subset of the six extension headers and every next-header value (finite domain, loops bounded by the number of header kinds, unwinding assertions on): complete for the struct-level walk.',
+     level_note=_NOTE_K)
+prop('C13', level='proof', v=False, technique=_T_K,
+     level_text='TcpOptionsIterator::next as a one-step contract from any iterator state over the full 40-byte option area (complete: the area is bounded by the header format), element encode/decode identity complete per element kind; multi-element encodings bounded (<= 3 elements).',
+     level_note=_NOTE_K)
+prop('C14', level='proof', technique=_T_K + '; ' + _T_V,
+     level_text='Every length-limited setter/constructor: Ok <=> the value fits, stored exactly, truthful error fields, object unchanged on Err: Kani harnesses complete over all usize lengths (fabricated slices for the huge ones) and Verus postconditions on the checksum-computing constructors (UDP/TCP payload limits).',
+     level_note=_NOTE_K + '; ' + _NOTE_V)
+prop('C15', level='proof', technique=_T_V + '; ' + _T_K,
+     level_text='Bounded integer newtypes: try_new / TryFrom / From accept exactly the values that fit, preserve them and report truthful errors: Verus contracts with a type invariant value <= MAX, and loop-free Kani harnesses over the full input domain.',
+     level_note=_NOTE_V + '; ' + _NOTE_K)
+prop('C16', level='proof', v=False, technique=_T_K,
+     level_text='I/O error handling: read/write of every header against readers/writers failing at every byte position, LimitedReader accounting, slice writers: Kani harnesses, complete over the position and content for the fixed-size headers, bounded for variable-size ones.',
+     level_note=_NOTE_K + '; LimitedReader offset overflow at usize::MAX is a stated precondition')
+prop('C17', level='proof', technique=_T_K + '; ' + _T_V,
+     level_text='Typed control-message views (ICMPv4/6 type tables, NDP options, IGMP): Kani harnesses against tables written from RFC 792/4443/4861/3376, complete over all byte strings of the header sizes, NDP option walks bounded (option area <= 32..48 B); slice accessors and accept sets additionally under Verus contract.',
+     level_note=_NOTE_K + '; ' + _NOTE_V)
 
 
 # ---- C15: bounded integer newtypes, complete domain -------------------------------------------------
@@ -58,6 +107,15 @@ PAIRS = {
     'Ipv6Slice::from_slice': ['h_pairs::p_ipv6_boundary_strict'],
     'Ipv4Slice::from_slice': ['h_pairs::p_ipv4_boundary_strict'],
     'IpSlice::from_slice': ['h_pairs::p_ipv6_boundary_strict', 'h_pairs::p_ipv4_boundary_strict'],
+    # whole-packet cursor: transport faults behind a decodable IP layer (offsets, lengths, length source)
+    'SlicedPacketCursor::slice_udp': ['h_pairs::c07_offsets_from_ip_v4', 'h_pairs::c07_offsets_from_ip_v6'],
+    'SlicedPacketCursor::slice_tcp': ['h_pairs::c07_offsets_from_ip_v4', 'h_pairs::c07_offsets_from_ip_v6'],
+    'SlicedPacketCursor::slice_icmp4': ['h_pairs::c07_offsets_from_ip_v4'],
+    'SlicedPacketCursor::slice_icmp6': ['h_pairs::c07_offsets_from_ip_v4', 'h_pairs::c07_offsets_from_ip_v6'],
+    'SlicedPacketCursor::slice_ipv4': ['h_pairs::c07_offsets_from_ip_v4'],
+    'SlicedPacketCursor::slice_ipv6': ['h_pairs::c07_offsets_from_ip_v6'],
+    'SlicedPacketCursor::slice_ip': ['h_pairs::c07_offsets_from_ip_v4', 'h_pairs::c07_offsets_from_ip_v6'],
+    '::read_transport': ['h_packet::c04_headers_vs_sliced_ip_v4_udp'],
     # checksums: protocol-level harnesses with the RFC oracle (small payloads) + the 64 KiB boundary harnesses
     'UdpHeader::calc_checksum_post_ip': ['h_builder::c09_k_proto_udp_ipv4', 'h_builder::c09_k_proto_udp_ipv6'],
     'UdpHeader::calc_checksum_ipv4_internal': ['h_builder::c09_k_proto_udp_ipv4'],
@@ -159,7 +217,7 @@ harness('h_packet::c05_lax_vs_strict_ip_v6_udp', ['C05'], 'bounded (<= 56 B, b[0
 harness('h_packet::c05_lax_vs_strict_ip_v6_icmpv6', ['C05'], 'bounded (<= 56 B, 0x60, next 58)', 'same, IPv6+ICMPv6', tier='thorough', bound='N=56, unwind 4', timeout=900, heavy=False)
 harness('h_packet::c05_lax_vs_strict_ip_v6_other', ['C05'], 'bounded (<= 48 B, 0x60, unknown next header)', 'same', tier='thorough', bound='N=48, unwind 4', timeout=1200, heavy=False)
 harness('h_packet::c05_lax_vs_strict_ip_any_short', ['C05','C02'], 'bounded (all inputs <= 24 B, nothing fixed)', 'same, version dispatch/short/unknown version', tier='quick', bound='N=24, unwind 4', timeout=900, heavy=False)
-harness('h_packet::c04_headers_vs_sliced_ip_v4_udp', ['C04'], 'bounded (<= 32 B, 0x45, proto 17)', 'PacketHeaders::from_ip_slice vs SlicedPacket::from_ip (UDP incl. inconsistent length fields: the D3 domain)', tier='thorough', bound='N=32, unwind 42', timeout=3600, heavy=True)
+harness('h_packet::c04_headers_vs_sliced_ip_v4_udp', ['C04', 'C02'], 'bounded (<= 32 B, 0x45, proto 17)', 'PacketHeaders::from_ip_slice vs SlicedPacket::from_ip (UDP incl. inconsistent length fields: the D3 domain)', tier='thorough', bound='N=32, unwind 42', timeout=3600, heavy=True)
 harness('h_packet::c04_headers_vs_sliced_ip_v4_udp_consistent_len', ['C04'], 'bounded (<= 32 B, 0x45, UDP, udp.length in {0, ip payload len})', 'same outside the D3 domain', tier='thorough', bound='N=32, unwind 42', timeout=3600, heavy=True)
 harness('h_packet::c04_headers_vs_sliced_ip_v4_tcp', ['C04'], 'bounded (<= 40 B, 0x45, proto 6)', 'same, TCP', tier='thorough', bound='N=40, unwind 42', timeout=4500, heavy=True)
 harness('h_packet::c06_ip_variants_v4_short', ['C06'], 'bounded (all inputs 1..=19 B, version 4)', 'IpSlice vs Ipv4Slice, LaxIpSlice vs LaxIpv4Slice (the D6 domain)', tier='quick', bound='N=19', timeout=600, heavy=False)
@@ -316,3 +374,8 @@ harness('h_big::c09_k_big_icmpv6', ['C09'], 'bounded (one length: echo request +
 # ---- IP boundary against an executable mirror of the contracts (paired harnesses, also part of the regular checks) ------------------
 harness('h_pairs::p_ipv6_boundary_strict', ['C03', 'C06', 'C07'], 'bounded (all inputs <= 64 B with version nibble 6, <= 3 extension headers)', 'Ipv6Slice::from_slice and IpSlice::from_slice == RFC 8200 reference boundary / reference fault (layer, offset, lengths, length source)', tier='quick', bound='N=64, unwind 5', timeout=900)
 harness('h_pairs::p_ipv4_boundary_strict', ['C03', 'C06', 'C07'], 'bounded (all inputs <= 48 B with version nibble 4)', 'Ipv4Slice::from_slice and IpSlice::from_slice == RFC 791 / RFC 4302 reference boundary / fault', tier='quick', bound='N=48, unwind 4', timeout=600)
+
+# ---- C07 whole-packet error localisation (numeric offsets, which the Verus contracts cannot decide) ------------------------------
+harness('h_pairs::c07_offsets_from_ip_v4', ['C07', 'C03'], 'bounded (all inputs 1..=48 B, b[0]==0x45, protocol UDP/TCP/ICMP/ICMPv6/AH)', 'SlicedPacket::from_ip: a transport length error sits at the IP payload start with the real available length and a real length source; IP faults equal the RFC 791 reference fault; transport slices start at the IP payload', tier='quick', bound='N=48, unwind 4', timeout=600)
+harness('h_pairs::c07_offsets_from_ip_v6', ['C07', 'C03'], 'bounded (all inputs 1..=64 B, b[0]==0x60, next header UDP/TCP/ICMPv6/fragment/destination options)', 'same for IPv6 with extension headers (offset = 40 + chain length)', tier='quick', bound='N=64, unwind 5', timeout=900)
+harness('h_pairs::c07_offsets_from_ethernet_v4', ['C07', 'C03'], 'bounded (Ethernet II + IPv4, all inputs 14..=54 B, UDP/TCP)', 'SlicedPacket::from_ethernet: offsets count from the start of the frame (+14)', tier='thorough', bound='N=54, unwind 4', timeout=1800)
